@@ -314,7 +314,9 @@ func ruleDigitsRound(c *Ctx) {
 				}
 				st := newState()
 				st.vars[ps[0]] = avInt{int64(v.prec)}
-				st.flds[fmt.Sprintf("%p.ndig", recv)] = avInt{int64(v.ndig)}
+				st.vars[recv] = avRef{"d"}
+				st.flds["ref:d.ndig"] = avInt{int64(v.ndig)}
+				in.inlineAll = true
 				in.curFn = append(in.curFn, fd)
 				flows := in.execBlock(fd.Body.List[:cut], st)
 				got := map[string]bool{}
@@ -334,13 +336,48 @@ func ruleDigitsRound(c *Ctx) {
 			}
 		}
 	}
-	// early exits: ndig <= prec keeps everything; prec < 0 drops everything
-	env := p.newCanonEnv(fd)
-	if len(fd.Body.List) >= 2 {
-		a := env.canonStmt(fd.Body.List[0])
-		b := env.canonStmt(fd.Body.List[1])
-		c.check(a == "if((R.ndig<=P0)){return }", "dround.keep", fd.Body.List[0], "ndig <= prec: nothing to round", "digits.round must return unchanged when no digit is dropped: "+a)
-		c.check(b == "if((P0<K(0))){R.exp+=R.ndig;R.ndig=K(0);return }", "dround.dropall", fd.Body.List[1], "prec < 0: all digits dropped, exponent compensated", "digits.round with negative position must drop all digits and add their count to the exponent: "+b)
+	// early exits: ndig <= prec keeps everything; prec < 0 drops everything and adds the digit count
+	// to the exponent (constant propagation through the function and its helpers)
+	for _, t := range []struct {
+		key                 string
+		ndig, prec, exp     int64
+		wantNdig, wantExp   int64
+		okDetail, badDetail string
+	}{
+		{"dround.keep", 5, 7, -3, 5, -3, "ndig <= prec: nothing changes", "digits.round must leave the digits and the exponent unchanged when no digit is dropped"},
+		{"dround.keep.eq", 5, 5, -3, 5, -3, "ndig == prec: nothing changes", "digits.round must leave the digits and the exponent unchanged when no digit is dropped"},
+		{"dround.dropall", 5, -1, -3, 0, 2, "prec < 0: all digits dropped, exponent + ndig", "digits.round with a negative position must drop all digits and add their count to the exponent"},
+		{"dround.dropall.far", 7, -20, 10, 0, 17, "prec < 0: all digits dropped, exponent + ndig", "digits.round with a negative position must drop all digits and add their count to the exponent"},
+	} {
+		in := newInterp(p)
+		in.inlineAll = true
+		stored := false
+		in.onAssign = func(in *interp, st *state, lhs ast.Expr, v AV) {
+			if ix, ok := lhs.(*ast.IndexExpr); ok {
+				if sel, ok := ast.Unparen(ix.X).(*ast.SelectorExpr); ok && sel.Sel.Name == "dig" {
+					stored = true
+				}
+			}
+		}
+		st := newState()
+		st.vars[ps[0]] = avInt{t.prec}
+		st.vars[recv] = avRef{"d"}
+		st.flds["ref:d.ndig"] = avInt{t.ndig}
+		st.flds["ref:d.exp"] = avInt{t.exp}
+		in.curFn = append(in.curFn, fd)
+		flows := in.execBlock(fd.Body.List, st)
+		okk := len(flows) > 0 && !in.overflow && !stored
+		got := ""
+		for _, f := range flows {
+			n, e := f.st.flds["ref:d.ndig"], f.st.flds["ref:d.exp"]
+			if n == nil || e == nil || n.avKey() != fmt.Sprintf("i%d", t.wantNdig) || e.avKey() != fmt.Sprintf("i%d", t.wantExp) {
+				okk = false
+			}
+			if n != nil && e != nil {
+				got = "ndig=" + n.avKey() + " exp=" + e.avKey()
+			}
+		}
+		c.check(okk, t.key, fd, t.okDetail, fmt.Sprintf("%s (ndig %d, exp %d, prec %d gives %s, want ndig=%d exp=%d, digit stores=%v)", t.badDetail, t.ndig, t.exp, t.prec, got, t.wantNdig, t.wantExp, stored))
 	}
 }
 
